@@ -67,6 +67,12 @@ class Gfa(Lines,GraphOperations,RGFA):
       self._version_guess = version
       self._validate_version()
     self._dialect = dialect.lower()
+    if self._dialect == "rgfa":
+      # rGFA is a subset of GFA1
+      if version == "gfa2":
+        raise gfapy.VersionError(
+          "rGFA format only supports GFA version 1")
+      self._version_guess = "gfa1"
     if len(args) == 1:
       lst = None
       if isinstance(args[0], str):
@@ -222,9 +228,9 @@ class Gfa(Lines,GraphOperations,RGFA):
         self.add_line(line.rstrip('\r\n'))
         if self._progress:
           self._progress_log("read_file")
-    if self._line_queue:
-      self._version = self._version_guess
-      self.process_line_queue()
+    # (also when no line is queued: the version of a version-neutral
+    # file is the same as for the same content given as a string)
+    self.process_line_queue()
     if self._progress:
       self._progress_log_end("read_file")
     if self._vlevel >= 1:
